@@ -28,6 +28,11 @@ OBLIGATIONS.append(Ob(name='C10.O3.lock_discipline.wfcq', harness='C11/lockdisc.
     desc='mutex-protected consumer wrappers (cds_wfcq_dequeue_blocking, cds_wfcq_dequeue_with_state_blocking, cds_wfcq_splice_blocking): every access to the consumer-side words happens with the structure\'s own mutex held, taken once and released once; result = result of the lock-free core (mutual exclusion of consumers is the documented scheme that rules out ABA / torn dequeues)'))
 OBLIGATIONS.append(Ob(name='C10.O3.lock_discipline.wfq', harness='C11/lockdisc.c', entry='h_lock_wfq', defines=('PART_WFQ',), unwind=3, min_covers=2, checks=('--bounds-check', '--signed-overflow-check', '--div-by-zero-check'), functions=('cds_wfq_dequeue_blocking',), timeout=300, native=True,
     desc='mutex-protected consumer wrappers (cds_wfq_dequeue_blocking): every access to the consumer-side words happens with the structure\'s own mutex held, taken once and released once; result = result of the lock-free core (mutual exclusion of consumers is the documented scheme that rules out ABA / torn dequeues)'))
+# operations run from the states a suspended enqueuer / pusher leaves behind (shared with C17; late import via engine/check.py):
+# nothing is lost or reported as 'end' while a link is still in flight
+def _shared():
+    from obligations import C17 as _c17
+    return [o for o in _c17.OBLIGATIONS if o.name in ('C17.O4.frozen.wfcq_dequeue_nb', 'C17.O4.frozen.wfcq_iter_nb', 'C17.O4.frozen.wfcq_splice_nb', 'C17.O4.frozen.wfcq_enqueue_frozen')]
 META = {
     'level': 'proof', 'bounded_apart': True,
     'trusted_base': ['CBMC 6.11', 'sequential meaning of the uatomic/cmm primitives (atomics_seq.h)', 'canonical pool layout (layout-obliviousness of the verified functions)'],
